@@ -13,6 +13,11 @@ type rnode struct {
 	ents   []ent  // indexes marker+1 .. marker+len(ents)
 	st     *hstate
 	ss     *snap
+	// lowW: the lowest entry index saved for the replica since its data was last
+	// removed (0 = nothing saved). Nothing below it can be stored: whatever
+	// existed before was removed by RemoveNodeData. ImportSnapshot keeps the old
+	// entries of the Pebble stores physically, so it does not reset it.
+	lowW uint64
 }
 
 func (n *rnode) last() uint64 { return n.marker + uint64(len(n.ents)) }
@@ -100,7 +105,23 @@ func (r *ref) applyUpdate(u update) {
 	if len(u.Ents) > 0 {
 		keep := u.I0 - n.marker - 1
 		n.ents = append(append([]ent{}, n.ents[:keep]...), u.Ents...)
+		if n.lowW == 0 || u.I0 < n.lowW {
+			n.lowW = u.I0
+		}
 	}
+}
+
+// absentQuery: an IterateEntries below everything saved since the replica's
+// data was removed (also at or below the marker, i.e. outside the contract of
+// the refinement theorems). A store that really removed the node data must
+// answer with nothing. The single-entry shape (high = low+1) is left out: the
+// plain format reads the missing record and panics there by design.
+func (r *ref) absentQuery(o op) bool {
+	if o.bad || o.Kind != "Q" {
+		return false
+	}
+	n := &r.nodes[o.N]
+	return o.A <= o.B && o.B != o.A+1 && o.B <= maxIndex && (n.lowW == 0 || o.A < n.lowW)
 }
 
 // wf reports whether the operation is inside the contract in the current state.
@@ -170,7 +191,7 @@ func (r *ref) apply(o op) {
 		r.nodes[o.N] = rnode{}
 	case "IMPORT":
 		ss := o.Ss
-		r.nodes[o.N] = rnode{marker: ss.Index, mterm: ss.Term, st: &hstate{Term: ss.Term, Commit: ss.Index}, ss: &ss}
+		r.nodes[o.N] = rnode{lowW: r.nodes[o.N].lowW, marker: ss.Index, mterm: ss.Term, st: &hstate{Term: ss.Term, Commit: ss.Index}, ss: &ss}
 	}
 }
 
